@@ -602,47 +602,51 @@ func rule035(r *core.Run) {
 // rule036 — no live, matching key is silently skipped by a listing loop.
 func rule036(r *core.Run) {
 	r.Rule("R03.6", "in the listing loops of the memory and bolt backends the only ways to go on to the next key without listing the current one (Add or AddPrefix) are: the prefix does not match, the current version is a delete marker, or the common prefix was already reported; in the fs file-prefix walkers: the entry name does not have the requested prefix part")
+	// admissible ways to pass over the current entry, as (condition, truth) pairs: a
+	// branch edge is admissible if one of the conditions it establishes — directly, or
+	// through a boolean merged from a short-circuit expression / flag variable — is
 	type spec struct {
 		fn      string
-		allowed func(fn *ssa.Function, iff *ssa.If, branch bool) bool
+		allowed func(fn *ssa.Function, cond ssa.Value, truth bool) bool
 	}
-	matchFalse := func(fn *ssa.Function, iff *ssa.If, branch bool) bool {
-		cd := core.CondOf(iff.Cond)
-		if c, ok := cd.X.(*ssa.Call); ok && r.P.CalleeName(c) == "gofakes3.(Prefix).Match" {
-			return (branch != cd.Neg) == false
+	matchFalse := func(fn *ssa.Function, cond ssa.Value, truth bool) bool {
+		cd := core.CondOf(cond)
+		if c, ok := cd.X.(*ssa.Call); ok && cd.Op == 0 && r.P.CalleeName(c) == "gofakes3.(Prefix).Match" {
+			return (truth != cd.Neg) == false
 		}
 		return false
 	}
 	specs := []spec{
-		{"s3mem.(*Backend).ListBucket", func(fn *ssa.Function, iff *ssa.If, branch bool) bool {
-			if matchFalse(fn, iff, branch) {
+		{"s3mem.(*Backend).ListBucket", func(fn *ssa.Function, cond ssa.Value, truth bool) bool {
+			if matchFalse(fn, cond, truth) {
 				return true
 			}
-			cd := core.CondOf(iff.Cond)
-			truth := branch != cd.Neg
-			s := r.P.SliceOf(iff.Cond, core.SliceOpts{Depth: -1})
-			if isLoadOf(r, cd.X, "s3mem.bucketData.deleteMarker") && cd.Op == 0 && truth {
+			cd := core.CondOf(cond)
+			t := truth != cd.Neg
+			if isLoadOf(r, cd.X, "s3mem.bucketData.deleteMarker") && cd.Op == 0 && t {
 				return true
 			}
 			// match.MatchedPart == lastMatchedPart
-			if eq, ok := (core.Guard{If: iff, Branch: branch}).Equality(); ok && eq && (isLoadOf(r, cd.X, "gofakes3.PrefixMatch.MatchedPart") || isLoadOf(r, cd.Y, "gofakes3.PrefixMatch.MatchedPart")) {
-				return true
+			if cd.Op == token.EQL || cd.Op == token.NEQ {
+				eq := t == (cd.Op == token.EQL)
+				if eq && (isLoadOf(r, cd.X, "gofakes3.PrefixMatch.MatchedPart") || isLoadOf(r, cd.Y, "gofakes3.PrefixMatch.MatchedPart")) {
+					return true
+				}
 			}
-			_ = s
 			return false
 		}},
 		{"s3bolt.(*Backend).ListBucket$1", matchFalse},
 		{"s3afero.(*MultiBucketBackend).getBucketWithFilePrefixLocked", nil},
 		{"s3afero.(*SingleBucketBackend).getBucketWithFilePrefixLocked", nil},
 	}
-	hasPrefixSkipEdge := func(fn *ssa.Function, iff *ssa.If, branch bool) bool {
-		cd := core.CondOf(iff.Cond)
+	hasPrefixSkipEdge := func(fn *ssa.Function, cond ssa.Value, truth bool) bool {
+		cd := core.CondOf(cond)
 		c, ok := cd.X.(*ssa.Call)
-		if !ok || r.P.CalleeName(c) != "strings.HasPrefix" {
+		if !ok || cd.Op != 0 || r.P.CalleeName(c) != "strings.HasPrefix" {
 			return false
 		}
-		// the edge on which HasPrefix(entryName, prefixPart) is false, reached only with prefixPart != ""
-		if (branch != cd.Neg) != false {
+		// the outcome on which HasPrefix(entryName, prefixPart) is false
+		if (truth != cd.Neg) != false {
 			return false
 		}
 		ns := r.P.SliceOf(c.Call.Args[0], core.SliceOpts{Depth: -1, NoIndex: true})
@@ -702,7 +706,14 @@ func rule036(r *core.Run) {
 			}
 			// an error return inside the loop is not a silent skip
 			return false
-		}, func(iff *ssa.If, branch bool) bool { return allowed(f, iff, branch) })
+		}, func(iff *ssa.If, branch bool) bool {
+			for _, ec := range expandGuard(iff, branch) {
+				if !ec.merged && allowed(f, ec.cond, ec.truth) {
+					return true
+				}
+			}
+			return false
+		})
 		p0 := pos(r, head)
 		if at != nil {
 			p0 = pos(r, at)
